@@ -102,6 +102,10 @@ var Fresh = true
 // FreshPools empties every sync.Pool of the process.
 func FreshPools() {
 	debug.SetGCPercent(-1)
+	// Safety net only: an execution that allocates without bound (a changed
+	// tree spinning in a loop) makes the collector run again near this limit
+	// instead of taking the machine down before the hang monitor fires.
+	debug.SetMemoryLimit(3 << 30)
 	runtime.GC()
 	runtime.GC()
 }
